@@ -273,6 +273,18 @@ Theorem C01_model_is_source_init : forall rows a c tm sm og mg,
 Proof. exact mk_screen_is_source_runs. Qed.
 Print Assumptions C01_model_is_source_init.
 
+(* ExperimentSpace.n_unique_samples / n_unique_treatments (the sizes every id is bounded by), on the mapping tuples a
+   constructed screen stores and from_screen hands over *)
+Theorem C01_model_is_source_n_unique_samples : forall s : screen,
+  src_space_n_unique_samples (nmap_cols2 (s_smap s)) = Ok (space_n_samples s).
+Proof. exact src_space_n_samples_is_model. Qed.
+Print Assumptions C01_model_is_source_n_unique_samples.
+
+Theorem C01_model_is_source_n_unique_treatments : forall s : screen,
+  src_space_n_unique_treatments (tmap_cols3 (s_tmap s)) = Ok (space_n_treatments s).
+Proof. exact src_space_n_treatments_is_model. Qed.
+Print Assumptions C01_model_is_source_n_unique_treatments.
+
 (* non-vacuity of the links: the translated functions run on the example above *)
 Example C01_example_source_valid_ids :
   src_numpy_array_is_0_indexed_integers (true, [1; -1; 0; 1]) = Ok true /\
